@@ -84,6 +84,12 @@ func validateJSONPatches(patches []byte) error {
 }
 
 func validateJSONPointer(pointer string) error {
+	// a JSON pointer is empty or starts with '/' (RFC 6901); the JSON patch library ignores anything before the
+	// first '/' so that e.g. 'x/publicKey' would address the public keys
+	if pointer != "" && !strings.HasPrefix(pointer, "/") {
+		return fmt.Errorf("%s: invalid JSON pointer '%s'", patch.JSONPatch, pointer)
+	}
+
 	if strings.HasPrefix(pointer, "/"+document.ServiceProperty) {
 		return fmt.Errorf("%s: cannot modify services", patch.JSONPatch)
 	}
